@@ -534,6 +534,9 @@ func (m *Model) search(op drv.Op) drv.Resp {
 	if hasRaw(op) || !placeholdersOK(op) {
 		return reject(drv.EAnyReject)
 	}
+	if op.K == drv.KQuery && op.KeyCond == nil {
+		return reject(drv.EAnyReject) // a Query needs a key condition
+	}
 	t, ok := m.Tables[op.Table]
 	if !ok {
 		return reject(drv.ENotFound)
